@@ -855,7 +855,7 @@ def render(sh, units, modname):
         "cab/csrc/callee.c": "\n".join(C) + "\n",
         "cref/driver.c": "\n".join(D) + "\n",
     }
-    return {"files": files, "exp_out": "\n".join(exp_out) + "\n", "exp_err": "\n".join(exp_err) + "\n", "meta": meta,
+    return {"files": files, "exp_out": "".join(x + "\n" for x in exp_out), "exp_err": "".join(x + "\n" for x in exp_err), "meta": meta,
             "nunits": len(units), "modname": modname}
 
 
